@@ -15,9 +15,13 @@ and hostmask tests — that ends in a reply or in exactly one dictionary operati
   the sender's exact hostmask, the password given).  It exists only for the theorems
   (`auth_backed_by_password`) and for the harness oracle, which keeps the same log from the
   commands it sends.
-* The nick fallback of `otherUser` (`irc.state.nickToHostmask(name)`) is taken to fail: account
-  names and sender nicks are disjoint in generated histories.
-* `hostmask remove … all` is not modelled (never generated).
+* `nicks` is `irc.state.nicksToHostmasks` restricted to what this layer feeds it: every incoming
+  message records its sender's nick (the nick fallback of the `otherUser` converter reads it).
+* `pstepA` adds what the bot does around every command: its own lookups of the sender
+  (`checkIgnored` in `Owner.__call__` and `Owner.doPrivmsg`, which abort the dispatch when the
+  sender matches two accounts; the command-capability checks; one `checkIgnored` per other loaded
+  plugin afterwards).  How many there are depends on the loaded plugins: the numbers are
+  parameters (`Ambient`), measured by the harness on the live bot.
 -/
 import LimnoriaModel.C04.Model
 namespace C04
@@ -39,6 +43,7 @@ inductive Reply
   | generic            -- "An error has occurred and has been logged."
   | iam (name : Str)   -- whoami: the account name
   | stranger           -- whoami: not recognised
+  | silent             -- no reply at all
 deriving DecidableEq, Repr
 
 structure LogEntry where
@@ -54,6 +59,8 @@ structure PSt where
   pws : List (Nat × Str) := []
   /-- ghost: the identifications whose password test succeeded -/
   log : List LogEntry := []
+  /-- `irc.state.nicksToHostmasks` (an IrcDict: keys compared after `toLower`) -/
+  nicks : List (Str × Str) := []
 deriving Repr
 
 inductive Cmd
@@ -65,6 +72,8 @@ inductive Cmd
   /-- `hostmask remove <name> <mask> <password>` or `hostmask remove <mask>` -/
   | hostRemove (p : Str) (name : Option Str) (mask pw : Str)
   | setSecure (p pw : Str) (b : Bool)
+  /-- `changename <name> <new name> <password>` -/
+  | changename (p name newname pw : Str)
   | whoami (p : Str)
   | tick (dt : Nat)
 deriving Repr
@@ -89,19 +98,44 @@ def convUser (st : St) (p : Str) : St × Except Reply User :=
     | .error .key => .error .notRegistered
     | .error _ => .error .generic)
 
-/-- converter `first('otherUser', 'user')` applied to the first argument `a`; the Bool says
-whether `a` was consumed as an account name -/
-def convFirst (st : St) (p a : Str) : St × Except Reply (User × Bool) :=
-  if isUserHostmask a then
-    let c := convUser st p
-    (c.1, c.2.map (fun u => (u, false)))
+/-- `msg.nick` of a prefix `nick!user@host` -/
+def nickOf (p : Str) : Str := p.takeWhile (fun c => c != '!')
+
+/-- `irc.state.nickToHostmask(n)` -/
+def nickLookup (nicks : List (Str × Str)) (n : Str) : Option Str := nicks.lookup (toLower n)
+
+/-- `IrcState.addMsg`: remember the sender -/
+def noteSender (nicks : List (Str × Str)) (p : Str) : List (Str × Str) :=
+  dset nicks (toLower (nickOf p)) p
+
+/-- converter `'otherUser'`: an account name, or the nick of somebody the bot has seen whose
+hostmask is recognised; a hostmask is refused outright -/
+def convOther (nicks : List (Str × Str)) (st : St) (a : Str) : St × Except Reply User :=
+  if isUserHostmask a then (st, .error .noUser)
   else
     let g := getUser st a
     match g.2 with
-    | .ok u => (g.1, .ok (u, true))
-    | .error _ =>
-      let c := convUser g.1 p
-      (c.1, c.2.map (fun u => (u, false)))
+    | .ok u => (g.1, .ok u)
+    | .error .key =>
+      (match nickLookup nicks a with
+       | none => (g.1, .error .noUser)
+       | some hm =>
+         let g2 := getUser g.1 hm
+         (g2.1, match g2.2 with
+           | .ok u => .ok u
+           | .error .key => .error .noUser
+           | .error _ => .error .generic))
+    | .error _ => (g.1, .error .generic)
+
+/-- converter `first('otherUser', 'user')` applied to the first argument `a`; the Bool says
+whether `a` was consumed as an account name.  Whatever makes `otherUser` fail, `user` is tried. -/
+def convFirst (nicks : List (Str × Str)) (st : St) (p a : Str) : St × Except Reply (User × Bool) :=
+  let o := convOther nicks st a
+  match o.2 with
+  | .ok u => (o.1, .ok (u, true))
+  | .error _ =>
+    let c := convUser o.1 p
+    (c.1, c.2.map (fun u => (u, false)))
 
 /-- outcome of a guard: a reply, or one dictionary operation to run -/
 inductive Decision
@@ -163,13 +197,18 @@ def hostAddBody (pwOk : Str → Str → Bool) (pst : PSt) (st : St) (p : Str) (u
   hostAddCore pwOk pst st p u (if hm.isEmpty then p else hm) pw
 
 /-- the body of `hostmask remove` (mask already defaulted) -/
+def allS : Str := ['a', 'l', 'l']
+
+/-- `hostmask remove <mask>` / `hostmask remove all` once the caller is entitled -/
+def removeOp (id : Nat) (hm : Str) : Op := if hm == allS then .clearHosts id else .rmHost id hm
+
 def hostRemoveCore (pwOk : Str → Str → Bool) (pst : PSt) (st : St) (p : Str) (u : User) (hm pw : Str) :
     St × Decision :=
   let w := liveUser st u
   if !checkPassword pwOk pst u.id pw && !w.checkHostmask st.db.timeout st.now p true then
     let o := callerIsOwner st p
-    if !o.2 then (o.1, .reply .incorrectAuth) else (o.1, .run (.rmHost u.id hm))
-  else (st, .run (.rmHost u.id hm))
+    if !o.2 then (o.1, .reply .incorrectAuth) else (o.1, .run (removeOp u.id hm))
+  else (st, .run (removeOp u.id hm))
 
 def hostRemoveBody (pwOk : Str → Str → Bool) (pst : PSt) (st : St) (p : Str) (u : User) (hm pw : Str) :
     St × Decision :=
@@ -194,12 +233,10 @@ def guard (pwOk : Str → Str → Bool) (pst : PSt) : Cmd → St × Decision
           | .error _ => .reply .generic)
     | .error _ => (g1.1, .reply .generic)
   | .identify p name pw =>
-    if isUserHostmask name then (pst.st, .reply .noUser)
-    else
-      let g := getUser pst.st name
-      (g.1, match g.2 with
-        | .ok u => if checkPassword pwOk pst u.id pw then .run (.identify u.id p) else .reply .incorrectAuth
-        | .error _ => .reply .noUser)
+    let c := convOther pst.nicks pst.st name
+    (c.1, match c.2 with
+      | .ok u => if checkPassword pwOk pst u.id pw then .run (.identify u.id p) else .reply .incorrectAuth
+      | .error r => .reply r)
   | .unidentify p =>
     let c := convUser pst.st p
     (c.1, match c.2 with
@@ -209,14 +246,14 @@ def guard (pwOk : Str → Str → Bool) (pst : PSt) : Cmd → St × Decision
     (match name with
      | some n =>
        -- three arguments: <name> <mask> <password>
-       let c := convFirst pst.st p n
+       let c := convFirst pst.nicks pst.st p n
        (match c.2 with
         | .error r => (c.1, .reply r)
         | .ok (u, true) => hostAddBody pwOk pst c.1 p u mask pw
         | .ok (_, false) => (c.1, .reply .usage))     -- the name was not one: an argument is left over
      | none =>
        -- one argument
-       let c := convFirst pst.st p mask
+       let c := convFirst pst.nicks pst.st p mask
        (match c.2 with
         | .error r => (c.1, .reply r)
         | .ok (u, true) => hostAddBody pwOk pst c.1 p u [] []
@@ -224,13 +261,13 @@ def guard (pwOk : Str → Str → Bool) (pst : PSt) : Cmd → St × Decision
   | .hostRemove p name mask pw =>
     (match name with
      | some n =>
-       let c := convFirst pst.st p n
+       let c := convFirst pst.nicks pst.st p n
        (match c.2 with
         | .error r => (c.1, .reply r)
         | .ok (u, true) => hostRemoveBody pwOk pst c.1 p u mask pw
         | .ok (_, false) => (c.1, .reply .usage))
      | none =>
-       let c := convFirst pst.st p mask
+       let c := convFirst pst.nicks pst.st p mask
        (match c.2 with
         | .error r => (c.1, .reply r)
         | .ok (u, true) => hostRemoveBody pwOk pst c.1 p u [] []
@@ -243,6 +280,20 @@ def guard (pwOk : Str → Str → Bool) (pst : PSt) : Cmd → St × Decision
         if checkPassword pwOk pst u.id pw && u.checkHostmask c.1.db.timeout c.1.now p false then
           .run (.secure u.id b)
         else .reply .incorrectAuth)
+  | .changename p name newname pw =>
+    let c := convOther pst.nicks pst.st name
+    (match c.2 with
+     | .error r => (c.1, .reply r)
+     | .ok u =>
+       let g := getUserId c.1 newname
+       (g.1, match g.2 with
+         | .ok _ => .reply .nameTaken
+         | .error .key =>
+           if hasLineBreak newname then .reply .invalid
+           else if (liveUser g.1 u).checkHostmask g.1.db.timeout g.1.now p true || checkPassword pwOk pst u.id pw
+             then .run (.setName u.id newname)
+           else .reply .silent          -- the command has no `else:` branch
+         | .error _ => .reply .generic))
   | .whoami p =>
     let g := getUser pst.st p
     (g.1, .reply (match g.2 with
@@ -258,6 +309,7 @@ def replyOf : Cmd → Out → Reply
   | .hostAdd _ _ _ _, o => replyOfHostAdd o
   | .hostRemove _ _ _ _, o => replyOfHostRemove o
   | .setSecure _ _ _, o => replyOfUnit o
+  | .changename _ _ _ _, o => replyOfUnit o
   | .whoami _, _ => .generic
   | .tick _, _ => .success
 
@@ -278,8 +330,62 @@ def pstep (pwOk : Str → Str → Bool) (pst : PSt) (c : Cmd) : PSt × Reply :=
   match guard pwOk pst c with
   | (st1, .reply r) => ({ pst with st := st1 }, r)
   | (st1, .run op) =>
-    ({ st := (step st1 op).1, pws := bookPws pst c op st1.nextId, log := bookLog pst c op st1.now },
+    ({ pst with st := (step st1 op).1, pws := bookPws pst c op st1.nextId, log := bookLog pst c op st1.now },
       replyOf c (step st1 op).2)
+
+/-- the sender of a command -/
+def Cmd.sender : Cmd → Option Str
+  | .register p _ _ => some p
+  | .identify p _ _ => some p
+  | .unidentify p => some p
+  | .hostAdd p _ _ _ => some p
+  | .hostRemove p _ _ _ => some p
+  | .setSecure p _ _ => some p
+  | .changename p _ _ _ => some p
+  | .whoami p => some p
+  | .tick _ => none
+
+/-- how many lookups of the sender the bot makes around a command (depends on the loaded plugins) -/
+structure Ambient where
+  /-- `checkIgnored` in `Owner.__call__` and `Owner.doPrivmsg`: DuplicateHostmask escapes and the
+  dispatch is abandoned -/
+  aborting : Nat := 2
+  /-- `checkCommandCapability`: `ircdb.checkCapability` swallows DuplicateHostmask -/
+  pre : Nat := 3
+  /-- `checkIgnored` in the `__call__` of every other plugin, after the command has run -/
+  post : Nat := 6
+
+/-- `n` lookups of `p`, whatever they answer -/
+def lookups (st : St) (p : Str) : Nat → St
+  | 0 => st
+  | n + 1 => lookups (getUserId st p).1 p n
+
+/-- `n` lookups of `p`; stops (`true`) at the first one that raises DuplicateHostmask -/
+def lookupsAbort (st : St) (p : Str) : Nat → St × Bool
+  | 0 => (st, false)
+  | n + 1 =>
+    let g := getUserId st p
+    match g.2 with
+    | .error .value => (g.1, true)
+    | _ => lookupsAbort g.1 p n
+
+/-- one incoming command as the live bot processes it: the sender is remembered, the bot's own
+lookups of the sender run (a sender that matches two accounts raises DuplicateHostmask in the
+first of them: the offending masks are deleted and the command is NOT executed), the command, and
+the other plugins' lookups -/
+def pstepA (amb : Ambient) (pwOk : Str → Str → Bool) (pst : PSt) (c : Cmd) : PSt × Reply :=
+  match c.sender with
+  | none => pstep pwOk pst c
+  | some p =>
+    let pst0 := { pst with nicks := noteSender pst.nicks p }
+    let a := lookupsAbort pst0.st p amb.aborting
+    if a.2 then ({ pst0 with st := lookups a.1 p amb.post }, .silent)
+    else
+      let r := pstep pwOk { pst0 with st := lookups a.1 p amb.pre } c
+      ({ r.1 with st := lookups r.1.st p amb.post }, r.2)
+
+def prunA (amb : Ambient) (pwOk : Str → Str → Bool) (pst : PSt) (cs : List Cmd) : PSt :=
+  cs.foldl (fun s c => (pstepA amb pwOk s c).1) pst
 
 def prun (pwOk : Str → Str → Bool) (pst : PSt) (cs : List Cmd) : PSt :=
   cs.foldl (fun s c => (pstep pwOk s c).1) pst
